@@ -353,6 +353,17 @@ impl Read for SimRead {
         self.rec("h.read", r.is_ok());
         r
     }
+    /// forwarded so that a specialised `read_to_end` of the wrapped handle is the code that runs
+    fn read_to_end(&mut self, buf: &mut Vec<u8>) -> io::Result<usize> {
+        self.ctl.yield_sched("h.read_to_end");
+        if let Some(kind) = self.ctl.fault_check(self.node, true).map(|k| if k == io::ErrorKind::NotFound { io::ErrorKind::Other } else { k }) {
+            self.rec("h.read_to_end", false);
+            return Err(injected(kind));
+        }
+        let r = self.inner.read_to_end(buf);
+        self.rec("h.read_to_end", r.is_ok());
+        r
+    }
 }
 
 impl Seek for SimRead {
